@@ -297,7 +297,10 @@ def build_path(path, variant):
 NUM_SPELLINGS = [("+1", 1), ("007", 7), ("1.0", 1.0), ("1e3", 1000.0), ("1E3", 1000.0), (".5", 0.5), ("5.", 5.0), ("-0", 0), ("-0.0", -0.0),
                  ("1.5e-3", 0.0015), ("+.25", 0.25), ("12345678901234567890", 12345678901234567890),
                  # values whose Python repr (what dumps writes) uses an exponent, with whole-number and fractional mantissa
-                 ("0.00001", 1e-05), ("10000000000000000.0", 1e16), ("1e22", 1e22), ("0.00000015", 1.5e-07), ("-0.00002", -2e-05), ("2.5e+17", 2.5e17)]
+                 ("0.00001", 1e-05), ("10000000000000000.0", 1e16), ("1e22", 1e22), ("0.00000015", 1.5e-07), ("-0.00002", -2e-05), ("2.5e+17", 2.5e17),
+                 # doubles that need 16 / 17 significant digits
+                 ("0.30000000000000004", 0.30000000000000004), ("-20037508.342789244", -20037508.342789244), ("559082264.0287178", 559082264.0287178),
+                 ("0.1", 0.1), ("1.0000000000000002", 1.0000000000000002)]
 
 
 def s5(otype):
